@@ -52,8 +52,8 @@ class C10(Prop):
         "delivered. oracle: acceptance model + 'the marker never reaches the caller'. non-trivial = a forgery was consumed while a request was "
         "pending; distinct = abstract trace + multiset of forgery kinds"
     )
-    quick_runs = 2500
-    thorough_runs = 40000
+    quick_runs = 20000
+    thorough_runs = 300000
 
     def families(self, tier):
         return [("forgeries", 1)]
